@@ -182,3 +182,11 @@ for _f in ('F1C', 'F2C', 'F1N', 'F2N'):
     for _o in _REG.get('C01', []):
         if _o.oid == 'C01.%s.def' % _f:
             _REG.setdefault('C03', []).append(_Ob('C03.callee.%s.def' % _f, _o.func, _o.fns, _o.tier, _o.backend, _o.doc, _o.replay, 'C03'))
+
+
+def fidelity(tier, seed):
+    """A-FRONT guard: the scalar functions of the files under contract, interpreter (float mode) vs compiled real code, bit for bit"""
+    from gm2v import fidelity as _fid
+    a = _fid.scalar_guard(['src/gm2_ffunctions.cpp'], ['src/gm2_dilog.cpp', 'src/gm2_numerics.cpp'], n_calls=25 if tier == 'quick' else 200, seed=seed)
+    b = _fid.mssm_model_guard(seed=seed)
+    return {'ok': bool(a.get('ok') and b.get('ok')), 'scalar_functions': a, 'mssm_model_functions': b}
